@@ -22,9 +22,12 @@ RULE = ("case = ~500 operations: (a) for a contiguous slice of the enumerated (s
         "lists/dicts), validated alone (add_missing_keys False/True); (b) whole-section sources with required keys "
         "filled, optional keys sampled, unknown/_internal/int keys and non-dict sources injected; (c) the same "
         "against a synthetic spec covering every validator x container form incl. one-sided ranges; (d) direct "
-        "string_to_ms/secs calls on number x suffix x case x blank combinations.  distinct = set of "
+        "string_to_ms/secs calls on number x suffix x case x blank combinations; (e) 36 sections of 1-4 event entries "
+        "(falsy None/0/0.0/False/''/{}/[], express scalars, device dicts, lists; plain, conditional, delayed and int "
+        "event keys) through ConfigPlayer.validate_config of each of the 14 registered config players: every provided "
+        "event key is kept or the call raises.  distinct = set of "
         "(op kind, validator family, value class, outcome) tuples of the case; non-trivial = type, completeness, "
-        "unknown-key, dropped-key, list-normalisation, spec-unchanged and time oracles were each evaluated at least once")
+        "unknown-key, dropped-key, list-normalisation, config-player-keys, spec-unchanged and time oracles were each evaluated at least once")
 ASSUMPTIONS = [
     "any exception out of validate_config/string_to_ms/secs counts as rejection (statement: 'or rejects ... with an error')",
     "None is accepted as the value of any type when the input (or the spec default) is None/'none' (MPF's null), and "
@@ -39,6 +42,9 @@ ASSUMPTIONS = [
     "list/set normalisation: a scalar (also 0, 0.0, False) must become exactly one element, n list elements or n comma "
     "separated parts stay n (sets 1..n), a non-empty dict/tuple must not come back empty; nothing is demanded for None, "
     "'', 'none'-like strings, strings containing '{' (pattern-split event templates) and EMPTY dicts/tuples",
+    "config players: ConfigPlayer.validate_config must keep every provided event key or raise; which falsy/express "
+    "settings a player keeps and which it rejects is the player's business; kept settings are only type-checked "
+    "against the player's spec section (+config_player_common) when they carry all keys of that spec (None accepted)",
     "dict-typed values whose keys collide after key normalisation (1 vs '1') are not judged as dropped keys: the "
     "statement's dropped-key clause is read as being about keys of the section",
     "colour component ranges and kivycolor lengths are not declared in the spec and are not demanded; gain is only "
@@ -62,7 +68,7 @@ TIERS = {
 }
 _MIN_QUICK = {"type": 450000, "range": 26000, "enum": 19000, "complete": 300000, "unknown_key": 1100,
               "dropped_key": 75000, "spec_unchanged": 110000, "time_direct": 5000, "time_validator": 30000,
-              "default": 300000, "machine": 4500, "list_norm": 20000}
+              "default": 300000, "machine": 4500, "list_norm": 20000, "player_keys": 15000, "player_typed": 2000}
 # about half of what a run on the unchanged tree evaluates (quick: 480 cases; thorough: 20x as many)
 MIN_EVALS = {"quick": _MIN_QUICK, "thorough": {k: v * 20 for k, v in _MIN_QUICK.items()}}
 SHRINK_KEYS = ["ops"]
@@ -72,6 +78,9 @@ VALUES_PER_KEY = 18
 SECTION_OPS = 14
 SYNTH_OPS = 40
 TIME_OPS = 60
+PLAYER_OPS = 36
+PLAYERS = ["coil", "event", "blocking", "queue_event", "queue_relay", "flasher", "light", "random_event", "show",
+           "variable", "segment_display_player", "hardware_sound_player", "score_queue_player", "blinkenlight"]
 
 NAN = float("nan")
 INF = float("inf")
@@ -133,6 +142,9 @@ lights:
   l2:
     number: 2
     subtype: led
+hardware_sound_systems:
+  default:
+    label: c12
 """
 
 # ---------------------------------------------------------------------------------------------
@@ -504,6 +516,29 @@ def all_keys(index_spec):
     return out
 
 
+PLAYER_FALSY = [None, 0, 0.0, False, "", D(), []]
+
+
+def player_settings(rng):
+    """Settings of one config player entry: falsy values, express scalars, device dicts, lists."""
+    k = rng.random()
+    if k < 0.4:
+        return rng.choice(PLAYER_FALSY)
+    if k < 0.65:
+        return rng.choice([1, 5, 2.5, True, DEV("coils"), DEV("lights"), DEV("coils", 1), "abc", "red", "on", "off",
+                           "ev_a", "ev_a, ev_b", "1s", "stop", "flash", "pulse", "-1", "0", "none", " "])
+    return rng.choice([
+        D((DEV("coils"), "pulse")), D((DEV("lights"), "red")), D((DEV("coils"), None)), D((DEV("coils"), 0)),
+        D((DEV("coils"), D(("action", "pulse")))), D((DEV("lights"), D(("color", "red"), ("fade", "1s")))),
+        D((DEV("coils"), D())), D((DEV("lights"), D(("zz_unknown", 1)))), D(("c12_nonexistent", "pulse")),
+        D(("score", 10)), D(("score", D(("int", 5)))), D(("score", D(("int", "current_player.x + 1")))),
+        D(("ev_a", D())), D(("abc", D())), D(("x", 1)), D(("show", "on")), D(("on", D(("loops", 2)))),
+        D(("on", D())), D(("events", ["a", "b"])), D(("events", "a"), ("scope", "player")), D(("post", "ev_z")),
+        D((0, D())), D((0, D(("action", "play")))), D((3, None)), D((DEV("coils"), False)),
+        ["a", "b"], [0], [D()], [D(("a", 1))], D(("", 1)), D(("a", None)),
+    ])
+
+
 def gen_case(rng, tier, index):
     idx = spec_index()
     keys = all_keys(idx)
@@ -535,6 +570,12 @@ def gen_case(rng, tier, index):
                                       idx), None, True])
     for _ in range(TIME_OPS):
         ops.append(["time", rng.choice(["ms", "secs"]), time_value(rng)])
+    for _ in range(PLAYER_OPS):
+        pairs = []
+        for j in range(rng.choice([1, 1, 2, 3, 4])):
+            ev = rng.choice(["ev%d" % j, "ev%d{x==1}" % j, "ev%d|2s" % j, "ev%d.2" % j, "ev%d" % j, j])
+            pairs.append((ev, player_settings(rng)))
+        ops.append(["player", rng.choice(PLAYERS), D(*pairs)])
     rng.shuffle(ops)
     return {"ops": ops}
 
@@ -772,6 +813,67 @@ def run_case(case):
                                         "exact_ms": str(exact)}})
             continue
 
+        if kind == "player":
+            _, pname, raw = op
+            player = getattr(host["machine"], pname + "_player", None)
+            if player is None:
+                continue          # stub host / player not registered in this tree
+            section = dec(raw, host)
+            if not isinstance(section, dict):
+                continue
+            provided = list(section.keys())
+            vcls = sorted(set(_vclass(v) for v in section.values()))
+            obs["player_calls"] = obs.get("player_calls", 0) + 1
+            try:
+                out = player.validate_config(section)
+            except Exception:    # noqa  rejection of the whole section
+                obs["player_rejected"] = obs.get("player_rejected", 0) + 1
+                clauses["player_keys"] = clauses.get("player_keys", 0) + len(provided)
+                shapes.add(("player", pname, ",".join(vcls), "rej"))
+                check_spec(None, None, "player " + pname)
+                continue
+            shapes.add(("player", pname, ",".join(vcls), "ok"))
+            clauses["player_keys"] = clauses.get("player_keys", 0) + len(provided)
+            if not isinstance(out, dict):
+                viol.append({"clause": "player_keys", "sig": "C12:player_section_not_dict",
+                             "detail": {"player": pname, "section": repr(section)[:300], "out": repr(out)[:200]}})
+                continue
+            for ev in provided:
+                if ev not in out:
+                    viol.append({"clause": "player_keys", "sig": "C12:player_entry_dropped",
+                                 "detail": {"player": pname, "event": repr(ev), "settings": repr(section[ev])[:200]
+                                            if ev in section else None, "section": repr(section)[:300],
+                                            "out_keys": repr(list(out))[:200]}})
+            # well-typedness of what is kept, as far as the player's own spec section justifies it
+            try:
+                pspec = ref.merged(player.config_file_section, "config_player_common")
+            except (KeyError, TypeError, AttributeError):
+                pspec = None
+            # players that rewrite validated settings afterwards (light_player turns the colour into an RGBColor,
+            # show_player resolves the show) are only judged on key presence
+            base_expand = None
+            for klass in type(player).__mro__:
+                if klass.__name__ == "DeviceConfigPlayer":
+                    base_expand = klass.__dict__.get("_expand_device_config")
+            if getattr(type(player), "_expand_device_config", None) is not base_expand:
+                pspec = None
+            if pspec:
+                want = [k for k, e in pspec.items() if isinstance(e, list) and k[:1] != "_"]
+                n_before = len(orc.viol)
+                for ev, entry in out.items():
+                    cands = []
+                    if isinstance(entry, dict):
+                        cands = [entry] + [v for v in entry.values() if isinstance(v, dict)]
+                    for c in cands:
+                        if want and all(k in c for k in want):
+                            clauses["player_typed"] = clauses.get("player_typed", 0) + 1
+                            orc.typed_section(pspec, c, "%s[%r]" % (player.config_file_section, ev))
+                for v in orc.viol[n_before:]:
+                    v["detail"]["op"] = "player " + pname
+                    v["detail"]["section"] = repr(section)[:300]
+            check_spec(None, None, "player " + pname)
+            continue
+
         _, path, key_or_src = op[0], op[1], op[2]
         if kind == "item":
             _, path, key, raw, base, add_missing = op
@@ -838,7 +940,7 @@ def run_case(case):
         if v["sig"] not in seen:
             seen.add(v["sig"])
             uniq.append(v)
-    nontrivial = all(clauses.get(c, 0) > 0 for c in ("type", "complete", "unknown_key", "dropped_key", "list_norm",
+    nontrivial = all(clauses.get(c, 0) > 0 for c in ("type", "complete", "unknown_key", "dropped_key", "list_norm", "player_keys",
                                                       "spec_unchanged", "time_direct"))
     import hashlib
     kinds = sorted(set(s[0] + ":" + str(s[2]) for s in shapes))
